@@ -282,8 +282,9 @@ def run_sequence(ctx: Ctx, spec, reqs, oracle_only=False):
         if out == "ok" and op["type"] in ("buy", "sell"):
             bal = L.dump_balance(rig.market.get_market_balance())
             oracle_equity(ctx, spec["token"], S2, bal, srep)
-            S2 = L.dump_state(rig)   # the cache was refreshed by get_market_balance
-            reqs.append((f"{op['type']}:{tag}", L.step_request(S, op, spec["token"]), out, res, dict(S2, cache=S["cache"]), acts, srep))
+            # the state compared with the model is the one right after the trade (the trade drops the cached valuation, fix 7a93584);
+            # get_market_balance above refreshed the cache afterwards
+            reqs.append((f"{op['type']}:{tag}", L.step_request(S, op, spec["token"]), out, res, S2, acts, srep))
         else:
             reqs.append((f"{op['type']}:{tag}", L.step_request(S, op, spec["token"]), out, res, S2, acts, srep))
     # over the whole bar: what was taken from a level never exceeds what it showed when the bar began
